@@ -71,6 +71,9 @@ type model struct {
 	// fitted the line, i.e. the overflow shows in the third or a later piece and the break lies
 	// before one or more whole unbreakable inline pieces
 	pieceRebreaks, pieceRebreaksPast int
+	// finding D20 (nowrap only): an inline box ends with a white-space-only text node that collapses
+	// away entirely behind a space held by the sibling inline box before it, and content follows
+	d20 bool
 }
 
 func parseLH(lh string, fs float64) (float64, error) {
@@ -155,8 +158,50 @@ func newModel(p *Para) (*model, error) {
 	if err := walk(p.Nodes, 0); err != nil {
 		return nil, err
 	}
+	m.d20 = m.coll && !m.wrap && trailingCollapsedChild(raw)
 	m.items = m.whitespace(raw)
 	return m, nil
+}
+
+// trailingCollapsedChild reports the configuration of finding D20 in the unprocessed items: a text
+// node made of white space only, last child of an inline box, that is removed entirely because the
+// content before it (inside the inline box that precedes it) ends with a collapsible space, and that
+// is followed by more content after the end of its box.
+func trailingCollapsedChild(raw []mitem) bool {
+	isWS := func(it mitem) bool { return it.k == 'c' && (it.r == ' ' || it.r == '\n') }
+	prevSpace := false // the last content item kept so far is a collapsible space
+	for i := 0; i < len(raw); i++ {
+		it := raw[i]
+		switch it.k {
+		case 'a', 'n':
+			prevSpace = false
+		case 'c':
+			if !isWS(it) {
+				prevSpace = false
+				continue
+			}
+			if (i == 0 || raw[i-1].k != 'c') && prevSpace && it.box != 0 {
+				// start of a text node that begins with a removed space: white space up to the end
+				// of its box?
+				j := i
+				for j < len(raw) && isWS(raw[j]) && raw[j].tn == it.tn {
+					j++
+				}
+				if j < len(raw) && raw[j].k == 'x' && raw[j].box == it.box {
+					for k := j; k < len(raw); k++ {
+						if raw[k].k == 'c' && !isWS(raw[k]) || raw[k].k == 'a' {
+							return true
+						}
+						if raw[k].k == 'n' {
+							break
+						}
+					}
+				}
+			}
+			prevSpace = true
+		}
+	}
+	return false
 }
 
 // whitespace applies CSS Text 3 §4.1.1 (phase I) and the static part of phase II (spaces at the
@@ -408,6 +453,12 @@ func (m *model) Layout(W float64) (lines []Line, guard string) {
 		if tsp, _, _ := m.trailingSpace(pos, end); m.p.Align == "justify" && m.coll && end >= len(m.items) && tsp > 0 && x > avail+eps && x-tsp <= avail+eps {
 			guards["D10"] = true
 		}
+		// finding D20: under nowrap a break is taken after an inline box whose last child, a text node
+		// of white space, was collapsed away (the box is flagged "trailing collapsible space" and the
+		// nowrap test is skipped for it)
+		if m.d20 && x > avail+eps {
+			guards["D20"] = true
+		}
 		ln := m.finish(pos, end, open, start, W, y, forced || end >= len(m.items))
 		lines = append(lines, ln)
 		y += ln.H
@@ -427,7 +478,7 @@ func (m *model) Layout(W float64) (lines []Line, guard string) {
 	if len(lines) > 0 {
 		lines[len(lines)-1].Last = true
 	}
-	for _, g := range []string{"D2", "D10", "D14", "D16", "D19"} {
+	for _, g := range []string{"D2", "D10", "D14", "D16", "D19", "D20"} {
 		if guards[g] && !lifted(g) {
 			return lines, g
 		}
